@@ -272,7 +272,12 @@ func (e *Exec) index(fr *frame, in *ssa.Index) Value {
 
 func (e *Exec) newMap(mt *types.Map) *Map {
 	e.objCtr++
-	return &Map{ID: e.objCtr, KT: mt.Key(), VT: mt.Elem(), idx: map[string]int{}, Frozen: e.freezing}
+	m := &Map{ID: e.objCtr, KT: mt.Key(), VT: mt.Elem(), idx: map[string]int{}, Frozen: e.freezing}
+	if e.onceShare != "" {
+		e.onceCtr++
+		m.SharedID = fmt.Sprintf("%s#m%d", e.onceShare, e.onceCtr)
+	}
+	return m
 }
 
 // concKey returns a canonical string for fully concrete comparable keys.
